@@ -161,6 +161,14 @@ def coercion(ctx, res, stats):
                 if c in d.columns and t is int:
                     d[c] = d[c].astype("float64")
             variants.append(("all ints and bools as float64", d))
+            d = df.copy()
+            for c, t in types.items():
+                if c in d.columns and t is int and len(d):
+                    mn, mx = int(d[c].min()), int(d[c].max())
+                    d[c] = d[c].astype(next(ty for ty in ("int8", "int16", "int32", "int64") if np.iinfo(ty).min <= mn and mx <= np.iinfo(ty).max))
+                elif c in d.columns and t is float:
+                    d[c] = d[c].astype("float32")
+            variants.append(("every int column in its narrowest signed dtype, floats as float32", d))
             for what, d in variants:
                 stats["coercion_variants"] += 1
                 try:
